@@ -63,6 +63,12 @@ impl Core {
                 }
             }
 
+            // The responder itself is one of the nodes this query knows about, even if no other
+            // node listed it (a bootstrapping node for example).
+            if let Some(responder_id) = author_id {
+                query.add_candidate(Node::new(responder_id, from));
+            }
+
             if let Some((responder_id, token)) = message.get_token() {
                 query.add_responding_node(Node::new_with_token(responder_id, from, token.into()));
             }
